@@ -6,8 +6,10 @@ package main
 // "fence" request; the EVENT messages it receives before the fence's response are what the step caused.
 
 import (
+	"bytes"
 	"encoding/json"
 	"fmt"
+	"github.com/brutella/hc/hap"
 	"math/rand"
 	"net"
 	"sort"
@@ -121,6 +123,7 @@ func checkC10(c *Ctx) {
 		"different accessories), against a started hc.NewIPTransport; every step is followed by a fence request on every open connection. " +
 		"non-trivial = history in which at least one EVENT was delivered. Model: exact multiset of (receiver, characteristic, value) per step")
 	c.Assume("events are attributed to a step by a following request/response on the same connection (hc writes notifications synchronously from the goroutine that changed the value)")
+	c10Wire(c)
 	n := c.Pick(32, 1500)
 	type res struct{ line, impl string }
 	results := make([]res, n)
@@ -480,4 +483,57 @@ func c10History(c *Ctx, id string, r *rand.Rand) (string, string) {
 	c.Count(strings.Join(toks, ";"), delivered, fmt.Sprintf("conns=%d", nconn), fmt.Sprintf("steps<=%d", (len(toks)/10+1)*10))
 	c.Trace()
 	return "notify run " + strings.Join(spec, " ") + " | " + strings.Join(toks, " ; "), strings.Join(outs, " ; ")
+}
+
+// c10Wire: hap.FixProtocolSpecifier vs the model on serialised notifications (status line + header + a JSON body whose
+// string value contains protocol-looking text) and on arbitrary bytes with the specifier at several places.
+func c10Wire(c *Ctx) {
+	var lines, impls []string
+	var ids []string
+	texts := []string{"", "on", "HTTP/1.0", "HTTP/1.0 200 OK", "xHTTP/1.0yHTTP/1.0", "EVENT/1.0", "HTTP/1.", "HTTP/1.1", "HHTTP/1.0", "\r\n\r\nHTTP/1.0"}
+	for i := 0; i < c.Pick(80, 3000); i++ {
+		id := c.CaseID("wire", i)
+		if c.Skip(id) {
+			continue
+		}
+		r := c.CaseRng("wire", i)
+		var b []byte
+		if i%3 == 0 {
+			n := r.Intn(40)
+			b = randBytes(r, n)
+			for k := r.Intn(3); k > 0 && n > 0; k-- {
+				at := r.Intn(len(b) + 1)
+				b = append(b[:at:at], append([]byte(texts[r.Intn(len(texts))]), b[at:]...)...)
+			}
+		} else {
+			str := characteristic.NewString("F103")
+			str.SetValue(texts[r.Intn(len(texts))] + texts[r.Intn(len(texts))])
+			str.ID = uint64(1 + r.Intn(40))
+			a := accessory.New(accessory.Info{Name: "W"}, accessory.TypeOther)
+			a.ID = uint64(1 + r.Intn(5))
+			resp, err := hap.NewCharacteristicNotification(a, str.Characteristic)
+			if err != nil {
+				c.Violate("notification cannot be built", id, str.Value, "response", err.Error())
+				continue
+			}
+			var buf bytes.Buffer
+			resp.Write(&buf)
+			b = buf.Bytes()
+			// direct oracle: after the fix the message is an EVENT/1.0 message whose body is the JSON that was built
+			fixed := hap.FixProtocolSpecifier(append([]byte{}, b...))
+			body, _ := hap.Body(a, str.Characteristic)
+			if !bytes.HasPrefix(fixed, []byte("EVENT/1.0 200 OK\r\n")) || !bytes.HasSuffix(fixed, body.Bytes()) || len(fixed) != len(b)+1 {
+				c.Violate("EVENT message on the wire is not the notification that was built (only the protocol specifier of the status line may change)", id,
+					map[string]interface{}{"value": str.Value}, "EVENT/1.0 200 OK … "+body.String(), trunc(string(fixed), 300))
+			}
+		}
+		lines = append(lines, "notify fix "+hx(b))
+		impls = append(impls, hx(hap.FixProtocolSpecifier(append([]byte{}, b...))))
+		ids = append(ids, id)
+		c.Count("wire/"+hx(b), bytes.Contains(b, []byte("HTTP/1.0")), "stream:wire")
+	}
+	model := c.Model(lines)
+	for i := range lines {
+		c.Same("wire", ids[i], lines[i], model[i], impls[i])
+	}
 }
